@@ -85,14 +85,174 @@ def gate_of(body, cfg, block):
     return set(), False
 
 
+KIND_OF = {"decode_empty_response": "unit", "decode_default_serializable_response": "default", "decode_serializable_response": "value",
+           "decode_optional_binary_response": "optional-binary", "decode_binary_response": "binary"}
+JSON_TEXT, OCTET_TEXT = "application/json", "application/octet-stream"
+ANY_JSON_TYPES = ("serde_core::de::ignored_any::IgnoredAny", "serde::de::ignored_any::IgnoredAny", "serde_json::value::Value")
+VIEW_CALLS = ("deref", "as_ref", "borrow", "as_slice", "as_bytes", "deref_mut", "as_mut")
+
+
+def _view_of(v, sym):
+    """v is `sym` seen through reference-like views only (Deref / AsRef / whole-range index)"""
+    while isinstance(v, tuple) and v and v[0] == "call" and v[1].split("::")[-1] in VIEW_CALLS + ("index",) and v[2]:
+        if v[1].split("::")[-1] == "index" and not (len(v[2]) == 2 and minterp_is_rangefull(v[2][1])):
+            return False
+        v = v[2][0]
+    return v == ("sym", sym)
+
+
+def minterp_is_rangefull(v):
+    from .. import minterp
+    return (minterp.is_adt(v) and v[1] == "core::ops::range::RangeFull") or v == ("tuple", [])
+
+
+STATUS_NUM = {"CONTINUE": 100, "OK": 200, "CREATED": 201, "ACCEPTED": 202, "NON_AUTHORITATIVE_INFORMATION": 203, "NO_CONTENT": 204, "RESET_CONTENT": 205, "PARTIAL_CONTENT": 206,
+              "MULTIPLE_CHOICES": 300, "MOVED_PERMANENTLY": 301, "FOUND": 302, "SEE_OTHER": 303, "NOT_MODIFIED": 304, "TEMPORARY_REDIRECT": 307, "PERMANENT_REDIRECT": 308,
+              "BAD_REQUEST": 400, "NOT_FOUND": 404, "INTERNAL_SERVER_ERROR": 500}
+
+
+def decoder_table(F, c, fn_body, resp_index, statuses=("NO_CONTENT", "OK")):
+    """Decision table of a client response decoder by constant propagation (minterp): one run per
+    (status is 204?, Content-Type absent / json / octet-stream / other, body stream ok / fails, JSON parse ok / fails).
+    Private helpers, closures, combinators and `.await` are interpreted; the body reader and the JSON entry point are atoms
+    whose results the row fixes.  -> {row: (outcome, payload, trace)} or (None, reason) when some row leaves the fragment."""
+    from .. import minterp
+    OPT, RES = "core::option::Option", "core::result::Result"
+    rows = {}
+    for status in statuses:
+        is204 = status == "NO_CONTENT"
+        for ct in (None, JSON_TEXT, OCTET_TEXT, "text/plain"):
+            for read_ok in (True, False):
+                for parse_ok in (True, False):
+                    trace = []
+
+                    def oracle(f, argv, status=status, ct=ct, read_ok=read_ok, parse_ok=parse_ok, trace=trace):
+                        n, dd = f.get("name"), f.get("def", "")
+                        if n == "status" and "http::response" in dd:
+                            return ("item", "http::status::StatusCode::" + status)
+                        if n == "as_u16" and "StatusCode" in dd and argv and isinstance(argv[0], tuple) and argv[0][0] == "item" and argv[0][1].split("::")[-1] in STATUS_NUM:
+                            return STATUS_NUM[argv[0][1].split("::")[-1]]
+                        if n in ("is_success", "is_redirection", "is_client_error", "is_server_error", "is_informational") and "StatusCode" in dd and argv and isinstance(argv[0], tuple) and argv[0][0] == "item" \
+                                and argv[0][1].split("::")[-1] in STATUS_NUM:
+                            return STATUS_NUM[argv[0][1].split("::")[-1]] // 100 == {"is_informational": 1, "is_success": 2, "is_redirection": 3, "is_client_error": 4, "is_server_error": 5}[n]
+                        if n in ("from_static", "from_str", "from_bytes") and "HeaderValue" in dd and argv and isinstance(argv[0], str):
+                            return ("hv", argv[0]) if n == "from_static" else minterp.adt(RES, 0, [("hv", argv[0])])
+                        if n == "get" and "HeaderMap" in dd and len(argv) == 2:
+                            if argv[1] == ("item", "http::header::name::CONTENT_TYPE"):
+                                return minterp.adt(OPT, 0, []) if ct is None else minterp.adt(OPT, 1, [("hv", ct)])
+                            return minterp.adt(OPT, 0, [])
+                        if n in ("read_body", "async_read_body") and dd.startswith("conjure_http::private::"):
+                            trace.append(("read_body", list(argv)))
+                            return minterp.adt(RES, 0, [("sym", "bytes")]) if read_ok else minterp.adt(RES, 1, [("sym", "stream-error")])
+                        if dd == CLIENT_FROM_SLICE:
+                            trace.append(("client_from_slice", list(argv), tystr(f["substs"][-1]) if f.get("substs") else None))
+                            return minterp.adt(RES, 0, [("sym", "value")]) if parse_ok else minterp.adt(RES, 1, [("sym", "parse-error")])
+                        if n == "into_body" and "http::response" in dd:
+                            trace.append(("into_body", list(argv)))
+                            return ("sym", "body")
+                        if n == "into_parts" and "http::response" in dd:
+                            trace.append(("into_body", list(argv)))
+                            return ("tuple", [("sym", "parts"), ("sym", "body")])
+                        return minterp.NO_VALUE
+                    I = minterp.Interp(F, c, inline=lambda d_, rid: c.body(rid) is not None and c.body(rid).name not in ("read_body", "async_read_body"), max_depth=4)
+                    I.call_oracle = oracle
+                    args = [("sym", f"a{k}") for k in range(fn_body.argc)]
+                    args[resp_index] = ("sym", "response")
+                    try:
+                        r = I.run(fn_body, args)
+                        if isinstance(r, tuple) and r and r[0] == "closure" and c.body(r[1]) is not None and c.body(r[1]).kind == "coroutine":
+                            r = I.run(c.body(r[1]), [r, ("sym", "cx")], depth=1)
+                    except minterp.Unsupported as e:
+                        return None, f"status {status}, Content-Type {ct}: {e}"
+                    if not (minterp.is_adt(r) and r[1] == RES):
+                        return None, f"result {r!r}"[:200]
+                    rows[(status, ct, read_ok, parse_ok)] = ("Err", None, trace) if r[2] == 1 else ("Ok", r[3][0], trace)
+    return rows, None
+
+
+def _payload_name(v):
+    from .. import minterp
+    OPT = "core::option::Option"
+    if v == ("tuple", []):
+        return "unit"
+    if v == ("sym", "value"):
+        return "value"
+    if v == ("sym", "body"):
+        return "body"
+    if isinstance(v, tuple) and v and v[0] == "call" and v[1] == "core::default::Default::default":
+        return "default"
+    if minterp.is_adt(v) and v[1] == OPT:
+        return "none" if v[2] == 0 else f"some({_payload_name(v[3][0])})"
+    return f"{v!r}"[:80]
+
+
+def expected_row(kind, is204, ct, read_ok, parse_ok):
+    """the specification (spec/no_content.json + the property statement)"""
+    piped = ct == JSON_TEXT and read_ok and parse_ok
+    if kind == "unit":
+        return ("Ok", "unit") if is204 or piped else ("Err", None)
+    if kind == "default":
+        return ("Ok", "default") if is204 else (("Ok", "value") if piped else ("Err", None))
+    if kind == "value":
+        return ("Ok", "value") if piped else ("Err", None)
+    if kind == "optional-binary":
+        return ("Ok", "none") if is204 else (("Ok", "some(body)") if ct == OCTET_TEXT else ("Err", None))
+    return ("Ok", "body") if ct == OCTET_TEXT else ("Err", None)
+
+
+def check_decoder_table(ctx, name, kind, body, rows, ok_ty):
+    """compare a decoder's table with the specification; -> its normalised table (for the twin comparison)"""
+    bad = {"R18.1": [], "R18.2": [], "R18.3": []}
+    norm = {}
+    for (status, ct, read_ok, parse_ok), (out, val, trace) in sorted(rows.items(), key=repr):
+        is204 = status == "NO_CONTENT"
+        exp = expected_row(kind, is204, ct, read_ok, parse_ok)
+        got = (out, _payload_name(val) if out == "Ok" else None)
+        norm[(status, ct, read_ok, parse_ok)] = got
+        row = f"status {STATUS_NUM.get(status, status)}, Content-Type {ct or 'absent'}, body stream {'ok' if read_ok else 'fails'}, JSON {'well-formed' if parse_ok else 'malformed'}"
+        rule = "R18.3" if (is204 or (got != exp and got == expected_row(kind, True, ct, read_ok, parse_ok))) and kind in ("unit", "default", "optional-binary") else ("R18.1" if ct != (OCTET_TEXT if "binary" in kind else JSON_TEXT) else "R18.2")
+        if got != exp:
+            bad[rule].append(f"{row}: returns {got[0]}{'(' + got[1] + ')' if got[1] else ''}, specification {exp[0]}{'(' + exp[1] + ')' if exp[1] else ''}")
+            continue
+        if out == "Ok" and exp[1] in ("unit", "value") and not is204 and "binary" not in kind:
+            # the value is the JSON entry point's verdict on the complete body of this response
+            tb = [t for t in trace if t[0] == "into_body"]
+            tr_ = [t for t in trace if t[0] == "read_body"]
+            tp = [t for t in trace if t[0] == "client_from_slice"]
+            pipe = len(tb) == 1 and len(tr_) == 1 and len(tp) == 1 and tb[0][1] and tb[0][1][0] == ("sym", "response") \
+                and len(tr_[0][1]) == 2 and tr_[0][1][0] == ("sym", "body") and _payload_name(tr_[0][1][1]) == "none" and tp[0][1] and _view_of(tp[0][1][0], "bytes")
+            if not pipe:
+                bad["R18.2"].append(f"{row}: the value must be json::client_from_slice(read_body(response.into_body(), None)) — one unlimited read of this response's body, one end-validating decode of all of it; trace: {[(t[0], [_payload_name(a) for a in t[1]]) for t in trace]}")
+            elif kind == "unit" and tp[0][2] not in ANY_JSON_TYPES:
+                bad["R18.3"].append(f"{row}: a body of an endpoint without return value is validated as `{tp[0][2]}`; any well-formed JSON must be tolerated (IgnoredAny)")
+            elif kind != "unit" and ok_ty is not None and tp[0][2] is not None and tp[0][2] != ok_ty:
+                bad["R18.2"].append(f"{row}: the body is decoded as `{tp[0][2]}`, the return type is `{ok_ty}`")
+        if out == "Ok" and "binary" in kind and not is204:
+            tb = [t for t in trace if t[0] == "into_body"]
+            if not (len(tb) == 1 and tb[0][1] and tb[0][1][0] == ("sym", "response")):
+                bad["R18.2"].append(f"{row}: the returned stream must be this response's body")
+    what = {"R18.1": ("table|content-type", "Content-Type gate"), "R18.2": ("table|pipeline", "value = client_from_slice(read_body(into_body, None)); stream / parse failures are errors"), "R18.3": ("table|204", "204 rows")}
+    for rule, (key, label) in what.items():
+        if rule == "R18.3" and kind in ("value", "binary"):
+            rule_rows = [k for k in rows if k[0] != "OK"]
+            # a decoder of a required value has no 204 shortcut: its 204 rows equal its 200 rows (decided under R18.1 / R18.2)
+            ctx.check(all(norm[k] == norm[("OK",) + k[1:]] for k in rule_rows), "R18.3", body.loc(), f"{name}|no-204", f"{name} must not special-case 204 No Content (a value is required)", instance=f"{name}: no 204 shortcut")
+            continue
+        ctx.check(not bad[rule], rule, body.loc(), f"{name}|{key}", f"{name} ({kind}): " + "; ".join(bad[rule][:3]), instance=f"{name} ({kind}): {label} = specification ({len(rows)} rows)")
+    return norm
+
+
 def decoder_bodies(c):
     """name -> (outer body, real body, flavor)"""
     out = {}
     for b in c.bodies:
-        if b.kind == "fn" and b.id.startswith(PRIV) and ("decode_" in b.name):
+        # the helpers the generated clients call (spec/no_content.json); a further public entry point (`.._with_limit`) that one of
+        # them forwards to is read through that helper, with the arguments the helper passes
+        if b.kind == "fn" and b.id.startswith(PRIV) and (b.name in KIND_OF or (b.name.startswith("async_") and b.name[len("async_"):] in KIND_OF)):
             # private predicates / helpers (e.g. a shared Content-Type test) are looked through; the body reader and the other
             # decoders are semantic atoms of these rules
-            rb = inline.expand(c, c06.real_body(c, b), depth=2, pred=lambda cb: cb.d.get("vis") != "pub" and "decode_" not in cb.name and cb.name not in ("read_body", "async_read_body"), lower=True)
+            rb = inline.expand(c, c06.real_body(c, b), depth=2, pred=lambda cb: (cb.d.get("vis") != "pub" and "decode_" not in cb.name and cb.name not in ("read_body", "async_read_body"))
+                               or (cb.id.startswith(PRIV) and "decode_" in cb.name and cb.name not in KIND_OF and not (cb.name.startswith("async_") and cb.name[len("async_"):] in KIND_OF)), lower=True)
             out[b.name] = (b, rb)
     return out
 
@@ -114,8 +274,40 @@ def run(ctx):
     ctx.floor("R18.1", "ConjureResponseDeserializer impls", len(macro), 2)
     readers = {}
     body_takers = []
+    # decision tables (authoritative where every row stays inside the interpretable fragment; the structural rules below are the
+    # fallback for a decoder that does not)
+    tables = {}
+    for name, (ob, rb) in list(decs.items()) + [(f"ConjureResponseDeserializer::{'async_' if x[1].kind == 'coroutine' else ''}deserialize", x) for x in macro]:
+        kind = KIND_OF.get(name[len("async_"):] if name.startswith("async_") else name, "value" if name.startswith("ConjureResponseDeserializer") else None)
+        if kind is None:
+            continue
+        ridx = [k for k in range(1, ob.argc + 1) if ty_adt(ob.local_ty(k)) == "http::response::Response"]
+        if len(ridx) != 1:
+            continue
+        # statuses: 204, 200 and every other status constant the decoder (or a helper of it) mentions
+        sts = ["NO_CONTENT", "OK"]
+        for it in all_item_consts(rb):
+            if it.startswith("http::status::StatusCode::") and it.split("::")[-1] not in sts:
+                sts.append(it.split("::")[-1])
+        rows, why = decoder_table(F, c, ob, ridx[0] - 1, tuple(sts))
+        if rows is None:
+            ctx.note(f"{name}: decision table not available ({why}); decided by the structural rules")
+            continue
+        rt = ob.local_ty(0) if ob.kind != "coroutine" else None
+        ok_ty = None
+        try:
+            fn_ret = ob.d.get("ret") or rt
+            if fn_ret and ty_adt(fn_ret) == "core::result::Result":
+                ok_ty = tystr(fn_ret["args"][0])
+        except Exception:
+            ok_ty = None
+        tables[name] = check_decoder_table(ctx, name, kind, rb, rows, ok_ty)
     for name, (ob, rb) in list(decs.items()) + [(f"ConjureResponseDeserializer::{'async_' if x[1].kind == 'coroutine' else ''}deserialize", x) for x in macro]:
         into = [(bb, t) for bb, t in rb.calls() if t["call"]["name"] == "into_body" and "http::response" in t["call"]["def"]]
+        if name in tables:
+            if into:
+                body_takers.append(name)
+            continue
         if not into:
             continue
         body_takers.append(name)
@@ -156,6 +348,8 @@ def run(ctx):
             if name not in decs:
                 if not (base in ("decode_binary_response", "decode_optional_binary_response") and name.startswith("async_")):
                     ctx.violation("R18.3", "conjure_http", f"{name}|missing", f"client helper {name} not found")
+                continue
+            if name in tables:
                 continue
             ob, rb = decs[name]
             cfg = CFG(rb)
@@ -218,15 +412,25 @@ def run(ctx):
             readers = {"read_body": ra, "async_read_body": rb2}
         else:
             ra, rb2 = decs[a][1], decs[b_][1]
+            if a in tables and b_ in tables:
+                diff = [k for k in tables[a] if tables[a][k] != tables[b_].get(k)]
+                ctx.check(not diff, "R18.4", ra.loc(), f"twins|{a}", f"{a} and {b_} decide differently: " + "; ".join(f"status {STATUS_NUM.get(k[0], k[0])}, Content-Type {k[1]}, stream {'ok' if k[2] else 'fails'}, JSON {'ok' if k[3] else 'malformed'}: {tables[a][k]} vs {tables[b_].get(k)}" for k in diff[:3]),
+                          instance=f"{a} == {b_} ({len(tables[a])} table rows)")
+                continue
         sa = {twin_norm(t) for bb, t in ra.calls() if c06.interesting(t)}
         sb = {twin_norm(t) for bb, t in rb2.calls() if c06.interesting(t)}
         ctx.check(sa == sb, "R18.4", ra.loc(), f"twins|{a}", f"{a} and {b_} use different operations: only blocking {sorted(sa - sb)}, only async {sorted(sb - sa)}", instance=f"{a} == {b_} ({len(sa)} operations)")
-    if len(macro) == 2:
+    mnames = [f"ConjureResponseDeserializer::{'async_' if x[1].kind == 'coroutine' else ''}deserialize" for x in macro]
+    if len(macro) == 2 and all(n in tables for n in mnames):
+        diff = [k for k in tables[mnames[0]] if tables[mnames[0]][k] != tables[mnames[1]].get(k)]
+        ctx.check(not diff, "R18.4", macro[0][1].loc(), "twins|ConjureResponseDeserializer", f"macro response deserializers decide differently on {len(diff)} rows, e.g. {diff[:2]}", instance="ConjureResponseDeserializer twins agree (table rows)")
+    elif len(macro) == 2:
         sa, sb = [{twin_norm(t) for bb, t in x[1].calls() if c06.interesting(t)} for x in macro]
         ctx.check(sa == sb, "R18.4", macro[0][1].loc(), "twins|ConjureResponseDeserializer", f"macro response deserializers use different operations: {sorted(sa ^ sb)}", instance="ConjureResponseDeserializer twins agree")
     # R18.5 reassembly
     for name, rb in readers.items():
-        c06.check_reader(ctx, c, rb, limited=True, rule="R18.5")
+        if c06.check_reader(ctx, c, rb, limited=True, rule="R18.5"):
+            continue        # decided by the small-model table (values compared: nothing dropped, nothing reordered)
         vt = dt.value_tracer(rb)
         items = [(bb, t) for bb, t in rb.calls() if t["call"]["name"] in ("next", "try_next")]
         for ibb, t in items:
